@@ -160,6 +160,15 @@ def scenarios():
         S('cif_value_set_item_by_key (new key, %s)' % nm, 'val.setkey V3 %s %s' % (u('new Key'), tok), setup=st, obs=['val.dump V3'])
         S('cif_value_set_item_by_key (existing key, %s)' % nm, 'val.setkey V3 %s %s' % (u('key'), tok), setup=st, obs=['val.dump V3'])
         S('cif_value_set_item_by_key (equivalent key, %s)' % nm, 'val.setkey V3 %s %s' % (u('e\u0301'), tok), setup=st, obs=['val.dump V3'])
+    # a key whose normalised form is exactly one unit longer than the key itself (composition exclusion U+0958 -> U+0915 U+093C):
+    # the terminator does not fit the first buffer, a branch of its own in the normalisation helper
+    grow = '\u0958'
+    S('cif_value_set_item_by_key (key growing by one unit when normalised)', 'val.setkey V3 %s V0' % u(grow), obs=['val.dump V3'])
+    S('cif_value_get_item_by_key (key growing by one unit when normalised)', 'val.getkey V3 %s R0' % u(grow), setup=['val.setkey V3 %s V0' % u(grow)], obs=['val.dump V3'], modifies=False)
+    S('cif_value_remove_item_by_key (key growing by one unit when normalised)', 'val.remkey V3 %s -' % u(grow), setup=['val.setkey V3 %s V0' % u(grow)], obs=['val.dump V3'], retry=False)
+    S('cif_normalize (text growing by one unit)', 'util.norm %s' % u('ab' + grow), obs=[], modifies=False, base=False)
+    S('cif_normalize (text growing by several units)', 'util.norm %s' % u(grow * 3 + '\u00c5\ufb03'), obs=[], modifies=False, base=False)
+    S('cif_create_block (code growing when normalised)', 'blk.create C0 %s H3' % u('x' + grow))
     S('cif_value_get_item_by_key', 'val.getkey V3 %s R0' % u('K2'), obs=['val.dump V3'], modifies=False)
     S('cif_value_get_item_by_key (absent)', 'val.getkey V3 %s R0' % u('zz'), obs=['val.dump V3'], modifies=False)
     S('cif_value_remove_item_by_key (hand over)', 'val.remkey V3 %s V5' % u('K2'), obs=['val.dump V3'], retry=False)
